@@ -262,6 +262,11 @@ func (c *Conn) writeFrame(ctx context.Context, fin bool, flate bool, opcode opco
 	defer func() { c.vErr("WfRet", err, int64(opcode)) }()
 	c.vEv("WfLocked", int64(opcode), vB(fin)|vB(flate)<<1, int64(len(p)), vCtxID(ctx))
 
+	if c.closeSent && opcode != opPing && opcode != opPong {
+		// RFC 6455 5.5.1: no data frame and no second close frame may follow a close frame.
+		return 0, net.ErrClosed
+	}
+
 	select {
 	case <-c.closed:
 		c.vEv("WfArmFail", 0, 0, 0, 0)
@@ -299,6 +304,10 @@ func (c *Conn) writeFrame(ctx context.Context, fin bool, flate bool, opcode opco
 	c.writeHeader.rsv1 = false
 	if flate && (opcode == opText || opcode == opBinary) {
 		c.writeHeader.rsv1 = true
+	}
+
+	if opcode == opClose {
+		c.closeSent = true
 	}
 
 	err = writeFrameHeader(c.writeHeader, c.bw, c.writeHeaderBuf[:])
